@@ -22,6 +22,13 @@ func readTable() []tableEntry {
 		_, inBase := base[k]
 		out = append(out, tableEntry{Name: k, Min: f.MinArity, Max: f.MaxArity, Experimental: !inBase})
 	}
+	// plus whatever the process-wide tables hold (read through the verif hook) that the per-Compile copies lack:
+	// such a name is "in the table" all the same, and must resolve
+	for _, e := range funcs.VerifTables() {
+		if _, ok := all[e.Name]; !ok {
+			out = append(out, tableEntry{Name: e.Name, Min: e.MinArity, Max: e.MaxArity, Experimental: e.Table == "experimental"})
+		}
+	}
 	sort.Slice(out, func(i, j int) bool { return out[i].Name < out[j].Name })
 	return out
 }
